@@ -29,6 +29,7 @@ def generate(seed, tier="quick"):
         op["kw"] = sampling.gen_iterative_kw(rnd, N, pname, logprobs=0.8)
         if op["kw"].get("init_batch_size") == 0 or op["kw"].get("init_batch_size", 0) > N:
             op["kw"]["init_batch_size"] = rnd.randint(1, N)
+        sampling.add_arg_types(rnd, op)
         prog["ops"].append(op)
         oid += 1
     rnd.shuffle(prog["ops"])
